@@ -759,9 +759,9 @@ def apply_abs(a, m, v):
         if "LA" in a:
             a["LA"] = 0           # the graph is rebuilt: link attributes do not survive
     elif m == "set_non_local":
-        a["NL"] = v
-        if "LA" in a:
+        if "LA" in a and a["NL"] != v:      # (a real change rebuilds the graph; the same value is a no-op)
             a["LA"] = 0
+        a["NL"] = v
     elif m == "set_window":
         a["WIN"] = v
     elif m == "set_global_window":
